@@ -106,6 +106,8 @@ struct Inner<C> {
 
 struct PublishInfo {
     inflight: HashSet<num::NonZeroU16>,
+    /// ids of in-flight QoS 1/2 publishes, Receive Maximum applies to these only
+    publishes: HashSet<num::NonZeroU16>,
     aliases: HashMap<num::NonZeroU16, ByteString>,
 }
 
@@ -131,6 +133,7 @@ where
                 info: RefCell::new(PublishInfo {
                     aliases: HashMap::default(),
                     inflight: HashSet::default(),
+                    publishes: HashSet::default(),
                 }),
             }),
         }
@@ -205,12 +208,12 @@ where
                     if let Some(pid) = packet_id {
                         // check for receive maximum
                         let receive_max = state.receive_max();
-                        if receive_max != 0 && inner.inflight.len() >= receive_max as usize {
+                        if receive_max != 0 && inner.publishes.len() >= receive_max as usize {
                             log::trace!(
                                 "{}: Receive maximum exceeded: max: {} in-flight: {}",
                                 self.tag(),
                                 receive_max,
-                                inner.inflight.len()
+                                inner.publishes.len()
                             );
                             return Err(SpecViolation::Pub_3_3_4_7.into());
                         }
@@ -241,6 +244,7 @@ where
                             ));
                             return Ok(None);
                         }
+                        inner.publishes.insert(pid);
                     }
 
                     // handle topic aliases
@@ -458,7 +462,9 @@ impl<C> Inner<C> {
         let result = match self.control.call(pkt).await {
             Ok(result) => {
                 if let Some(id) = num::NonZeroU16::new(packet_id) {
-                    self.info.borrow_mut().inflight.remove(&id);
+                    let mut info = self.info.borrow_mut();
+                    info.inflight.remove(&id);
+                    info.publishes.remove(&id);
                 }
                 result
             }
@@ -528,7 +534,11 @@ where
                 properties: ack.properties,
             })
         } else {
-            inner.info.borrow_mut().inflight.remove(&id);
+            {
+                let mut info = inner.info.borrow_mut();
+                info.inflight.remove(&id);
+                info.publishes.remove(&id);
+            }
             codec::Packet::PublishAck(codec::PublishAck {
                 packet_id: id,
                 reason_code: ack.reason_code,
